@@ -163,6 +163,29 @@ fn main() {
             } } }
             println!("RESULT enum:capi-list list handles agree with Vec semantics on all small cases");
         },
+        // ---- C01 enumerator: scalar values through the real Zinc writer and reader; exit 3 on the first that does not come back
+        "enum:zinc-roundtrip-scalars" => {
+            use libhaystack::encoding::zinc::encode::ToZinc;
+            let strs = ["", "a", "é", "a\"b", "\\", "$", "\t\r\n", "\u{1}", "😀", " x ", "a`b"];
+            let mut vals = vec![Value::Marker, Value::Remove, Value::Na, Value::Null, Value::make_true(), Value::make_false()];
+            for a in strs { vals.push(Value::make_str(a)); vals.push(Value::make_ref_with_dis("r", a)); vals.push(Value::make_xstr_from("Bin", a)); }
+            for a in ["a", "a.b:c-d~e_f", "x1"] { vals.push(Value::make_ref(a)); vals.push(Value::make_symbol(a)); }
+            for a in ["/a/b", "http://x/é?q=1#f", "a`b", "a😀"] { vals.push(Value::make_uri(a)); }
+            for v in &vals {
+                let z = v.to_zinc_string();
+                let back = z.as_ref().ok().map(|z| from_str(z));
+                let same = match (&back, v) {
+                    (Some(Ok(Value::Ref(b))), Value::Ref(a)) => a.value == b.value && a.dis == b.dis,
+                    (Some(Ok(b)), a) => a == b,
+                    _ => false,
+                };
+                if !same {
+                    println!("RESULT enum:zinc-roundtrip-scalars value={v:?} zinc={z:?} decoded={back:?}");
+                    std::process::exit(3);
+                }
+            }
+            println!("RESULT enum:zinc-roundtrip-scalars {} scalar values survive Zinc encode/decode", vals.len());
+        }
         // ---- C06: RFC 3339 text -> DateTime keeps the instant (or is rejected); exit 3 = different instant
         "rfc3339" => {
             let text = &args[2];
